@@ -1,8 +1,13 @@
 package main
 
 import (
+	"bytes"
+	"context"
 	"fmt"
 	"time"
+
+	"github.com/superfly/litefs"
+	lhttp "github.com/superfly/litefs/http"
 
 	"github.com/superfly/litefs/verifharness/core"
 	"github.com/superfly/litefs/verifharness/sim"
@@ -75,6 +80,84 @@ func streamEndsWithTenure(rep *core.Report) {
 		}
 		rep.Extra["stream_ends_with_tenure_"+how] = fmt.Sprintf("stepped down after %s, replica let go after %s", stepDown.Round(time.Millisecond), time.Since(t1).Round(time.Millisecond))
 		_ = core.Try(cl.Close)
+	}
+	core.Beat("harness")
+}
+
+// handoffToBusySubscriber: a hand-off is requested for a connected replica whose stream handler on the primary
+// is busy (it is in the middle of sending a large initial set that the replica does not read). The primary
+// may give up on the hand-off, but its lease loop must go on: a node that acts as primary keeps renewing its
+// lease (bound: the hand-off time-out of 5 s + half a TTL + 2 s).
+func handoffToBusySubscriber(rep *core.Report) {
+	core.Beat("real:c08:handoff-busy-subscriber")
+	cl := sim.NewCluster(core.Scratch("c08-handoff"))
+	defer func() { _ = core.Try(cl.Close) }()
+	cl.Lease.AllowOnly()
+	p, err := cl.Start("p", sim.ClusterNodeOpts{Candidate: true})
+	if err != nil {
+		core.Infra("start p: %v", err)
+	}
+	if err := cl.Elect("p", 20*time.Second); err != nil {
+		core.Infra("elect: %v", err)
+	}
+	l := sim.L0(4096)
+	pages := 12 << 20 / 4096
+	img := func(v int) []byte {
+		var buf bytes.Buffer
+		for r := uint32(1); r <= uint32(pages); r++ {
+			b := l.PageBytes(r, sim.Content{V: v + int(r), Sz: 1})
+			if r == 1 {
+				b[28], b[29], b[30], b[31] = byte(pages>>24), byte(pages>>16), byte(pages>>8), byte(pages)
+			}
+			buf.Write(b)
+		}
+		return buf.Bytes()
+	}
+	for i, n := range []string{"a.db", "b.db"} {
+		if err := lhttp.NewClient().Import(context.Background(), p.URL, n, bytes.NewReader(img(1000*(i+1)))); err != nil {
+			core.Infra("import %s: %v", n, err)
+		}
+	}
+	r, err := cl.Start("r", sim.ClusterNodeOpts{Candidate: true, Configure: func(s *litefs.Store) {
+		s.Client.(*sim.FaultClient).HoldAfter(6 << 20) // stops reading in the middle of the first database
+	}})
+	if err != nil {
+		core.Infra("start r: %v", err)
+	}
+	for t0 := time.Now(); r.Client.Delivered() < 6<<20 && time.Since(t0) < 60*time.Second; time.Sleep(time.Millisecond) {
+	}
+	time.Sleep(200 * time.Millisecond) // the primary's handler has filled the connection and is blocked in a write
+	hoDone := make(chan error, 1)
+	t0 := time.Now()
+	go func() {
+		ctx, cancel := context.WithTimeout(context.Background(), 20*time.Second)
+		defer cancel()
+		hoDone <- lhttp.NewClient().Handoff(ctx, p.URL, r.Store.ID())
+	}()
+	bound := 5*time.Second + cl.Lease.TTL/2 + 2*time.Second
+	renewed := false
+	for time.Since(t0) < bound && !renewed {
+		time.Sleep(20 * time.Millisecond)
+		// a renewal that happened after the hand-off was requested (the hand-off itself starts with one)
+		if at := cl.Lease.HolderRenewedAt(); !at.IsZero() && at.Sub(t0) > 500*time.Millisecond {
+			renewed = true
+		}
+		if !p.Store.IsPrimary() {
+			break
+		}
+	}
+	rep.Eval(1)
+	rep.TracesValidated++
+	rep.Case("handoff-to-busy-subscriber", true)
+	if p.Store.IsPrimary() && !renewed {
+		rep.Violate("C08.primary-keeps-renewing", "handoff-busy-subscriber/no-renewal-while-primary", map[string]any{
+			"ttl_ms": cl.Lease.TTL.Milliseconds(), "bound_ms": bound.Milliseconds(), "last_renewal_ms_after_the_request": cl.Lease.HolderRenewedAt().Sub(t0).Milliseconds(),
+			"lease_holder": cl.Lease.Holder(), "bytes_delivered_to_the_replica": r.Client.Delivered()}, map[string]any{"handoff_busy": true})
+	}
+	r.Client.Resume()
+	select {
+	case <-hoDone:
+	case <-time.After(25 * time.Second):
 	}
 	core.Beat("harness")
 }
